@@ -166,6 +166,23 @@ def named_like_hoisted_text(rng):
     return "\n".join(lines) + "\n"
 
 
+def kwarg_order_text(rng):
+    """operations with two to four keyword arguments that mix array variables with scalars, lists and strings in every order
+    (the serialiser hoists array arguments into declarations: the keyword order must survive that)"""
+    lines = ["name t", "version 1.0", "", "float array U =\n    1.5, -2.0\n    0.25, 4.0", "complex array V[1, 2] =\n    1+2j, 0.5j", "int array W =\n    3, 1, 2", ""]
+    vals = {"arr": ["U", "V", "W"], "other": ["0.5", "3", '"rect"', "True", "[1, 2]", "1-2j", "2 * 0.25"]}
+    for _ in range(rng.randint(1, 3)):
+        n = rng.randint(2, 4)
+        keys = rng.sample(["tol", "U", "mesh", "a", "phi", "zeta", "B", "cutoff"], n)
+        kinds = [rng.choice(["arr", "other"]) for _ in range(n)]
+        if "arr" not in kinds:
+            kinds[rng.randrange(1, n)] = "arr"
+        kws = ["%s=%s" % (k, rng.choice(vals[kd])) for k, kd in zip(keys, kinds)]
+        pos = rng.choice([[], ["0.5"], ["U"], ["1", "W"]])
+        lines.append("%s(%s) | %s" % (rng.choice(["Interferometer", "Gate", "Sgate"]), ", ".join(pos + kws), rng.choice(["0", "[0, 1]", "2"])))
+    return "\n".join(lines) + "\n"
+
+
 def tricky_text(rng):
     lines = ["name t", "version 1.0", ""]
     for _ in range(rng.randint(1, 4)):
@@ -203,7 +220,7 @@ def run(tier, seed):
                 res.extra["stopped_by_time_budget"] = True
                 break
             try:
-                text = tricky_text(rng) if i % 8 == 7 else named_like_hoisted_text(rng) if i % 16 == 3 else gen_text(rng, i)
+                text = tricky_text(rng) if i % 8 == 7 else kwarg_order_text(rng) if i % 16 == 5 else named_like_hoisted_text(rng) if i % 16 == 3 else gen_text(rng, i)
             except Exception:  # noqa: BLE001
                 continue
             try:
